@@ -1,12 +1,12 @@
 #!/bin/sh
 # tools/formula_probe.sh <patch.diff>... — for each seeded change: translate a patched scratch copy of /repo/src and report which
 # formula theorems (Lemmas/Formulas/*) break.  Leaves lean/Decaf/Generated/Formulas.lean regenerated from /repo.
-MODS="MinDouble MinAdd MinNeg MinCompress ArkCompress MinElligator ArkElligator MinDecompress ArkDecompress Eq R1cs HashToCurve OpForms ArkSqrt Ladder ConvForms Lazy"
+MODS="MinDouble MinAdd MinNeg MinCompress ArkCompress MinElligator ArkElligator MinDecompress ArkDecompress Eq R1cs HashToCurve OpForms ArkSqrt Ladder ConvForms Lazy FieldFns"
 T=""; for m in $MODS; do T="$T Decaf.Lemmas.Formulas.$m"; done
 for patch in "$@"; do
   rm -rf /tmp/fprobe && mkdir -p /tmp/fprobe && cp -r /repo/src /tmp/fprobe/src
   ( cd /tmp/fprobe && git init -q . 2>/dev/null; git apply --include='src/*' "$patch" 2>/dev/null || patch -p1 -s < "$patch" >/dev/null 2>&1 )
-  st=$(python3 /verif/translator/extract_formulas.py /tmp/fprobe /verif/lean/Decaf/Generated/Formulas.lean; python3 /verif/translator/extract_opforms.py /tmp/fprobe /verif/lean/Decaf/Generated/OpForms.lean | tr '\n' ' '; python3 /verif/translator/extract_convforms.py /tmp/fprobe /verif/lean/Decaf/Generated/ConvForms.lean | tr '\n' ' '; python3 /verif/translator/extract_lazy.py /tmp/fprobe /verif/lean/Decaf/Generated/Lazy.lean | tr '\n' ' ')
+  st=$(python3 /verif/translator/extract_formulas.py /tmp/fprobe /verif/lean/Decaf/Generated/Formulas.lean; python3 /verif/translator/extract_opforms.py /tmp/fprobe /verif/lean/Decaf/Generated/OpForms.lean | tr '\n' ' '; python3 /verif/translator/extract_convforms.py /tmp/fprobe /verif/lean/Decaf/Generated/ConvForms.lean | tr '\n' ' '; python3 /verif/translator/extract_lazy.py /tmp/fprobe /verif/lean/Decaf/Generated/Lazy.lean | tr '\n' ' '; python3 /verif/translator/extract_fieldfns.py /tmp/fprobe /verif/lean/Decaf/Generated/FieldFns.lean | tr '\n' ' ')
   br=$(cd /verif/lean && lake build $T 2>&1 | grep -E "^error: Decaf|^✖" | sed -E 's/.*(Formulas\/[A-Za-z]+|Formulas\.[A-Za-z]+).*/\1/' | sort -u | tr '\n' ' ')
   echo "$(dirname $patch | xargs basename): $st | broken: ${br:-none}"
 done
@@ -15,3 +15,4 @@ python3 /verif/translator/extract_formulas.py /repo /verif/lean/Decaf/Generated/
 python3 /verif/translator/extract_opforms.py /repo /verif/lean/Decaf/Generated/OpForms.lean >/dev/null
 python3 /verif/translator/extract_convforms.py /repo /verif/lean/Decaf/Generated/ConvForms.lean >/dev/null
 python3 /verif/translator/extract_lazy.py /repo /verif/lean/Decaf/Generated/Lazy.lean >/dev/null
+python3 /verif/translator/extract_fieldfns.py /repo /verif/lean/Decaf/Generated/FieldFns.lean >/dev/null
